@@ -273,8 +273,16 @@ def predicate(case, stats):
     reach = reachable(root_ids, adj)
     cyclic = has_cycle(reach, adj)
     fails = []
+    yielded = []
+
+    def consume():
+        # one item at a time, as a lazy consumer sees it: what was handed out before an error counts
+        for item in orderer(*roots):
+            yielded.append(item)
+        return list(yielded)
+
     try:
-        (out, steps) = run_budgeted(lambda: list(orderer(*roots)))
+        (out, steps) = run_budgeted(consume)
         outcome = "order"
     except StepBudget:
         outcome = "budget"
@@ -295,6 +303,9 @@ def predicate(case, stats):
     elif cyclic:
         if outcome != "refused":
             fails.append({"sub": "cycle", "kind": "cyclic-graph-ordered", "got": [c.__name__ for c in out or []]})
+        elif yielded:
+            fails.append({"sub": "cycle", "kind": "partial-order-yielded-before-the-error",
+                          "got": [getattr(c, "__name__", repr(c)) for c in yielded]})
     elif outcome == "refused":
         fails.append({"sub": "order", "kind": "acyclic-graph-refused"})
     else:
